@@ -161,7 +161,15 @@ func newNamedStructDecoder(t reflect.Type, tag ...string) *structDecoder {
 	decoder.Lock()
 	defer decoder.Unlock()
 	registerNamedStructDecoder(t, decoder)
+	built := false
+	defer func() {
+		if !built {
+			// see newNamedStructEncoder: no half-built decoder may stay registered
+			namedStructDecoderMap.Delete(t)
+		}
+	}()
 	decoder.fields = getFieldMap(t, tag...)
+	built = true
 	return decoder
 }
 
